@@ -1,4 +1,16 @@
-"""C19 - shipped reference library equals its source tables and is usable."""
+"""C19 - shipped reference library equals its source tables and is usable.
+
+Ties: the regenerated Lean table (attribute values of pickle and reader output, `decide +kernel`), the Python search for
+the first differing attribute, well-formedness on live objects, labels, selection by name, per-archetype simulations;
+and - `object_graph_ties`, helpers in harness/t4_util.py - what lies below the attribute values:
+  * the file the reader itself writes (its serialisation code, output redirected) vs the shipped file, byte for byte
+    (recorded; pickle protocol identified),
+  * the OBJECT GRAPH of the unpickled library vs the reader output: side-by-side walk, every mutable object named by the
+    position of its first visit, so that which archetypes hold one and the same Element / Material / layer list /
+    schedule week / day row is compared, plus the aliasing partition by role,
+  * the behavioural consequence: a family of edits and real Conduction steps applied to ONE archetype must change the
+    same set of cells in both libraries; stocks of several archetypes and "customise one archetype, simulate another"
+    runs must give bit-identical records with the shipped binary and with the binary the reader writes."""
 import multiprocessing
 import os
 
@@ -147,6 +159,177 @@ def simulate_one(args):
         return (i, j, k, epw, '%s: %s' % (type(e).__name__, str(e)[:200]))
 
 
+def _name(path):
+    return path.replace('lib[0]', 'refBEM', 1).replace('lib[1]', 'Schedule', 1)
+
+
+def object_graph_ties(chk, sb, ss):
+    """"exactly what the reader produces" below the attribute values: the object graph (which archetypes hold one
+    and the same mutable sub-object) of the unpickled library vs the reader's output, the file the reader itself
+    writes vs the shipped file, and the observable consequence - an edit / a step made through one archetype reaches
+    the same set of archetypes in both libraries, and stocks simulate identically with either binary."""
+    import pickle
+    import t4_util as T
+    u = U.uwg_mod()
+    import uwg.readDOE as R
+    from uwg.utilities import REF_ZONETYPE
+    rng = chk.rng
+    quick = chk.tier == 'quick'
+    work = chk.work()
+
+    # --- the reader's own file vs the shipped file
+    shipped_bytes = open(u.UWG.REFDOE_PATH, 'rb').read()
+    fb, fs = u.UWG.load_refDOE()          # a fresh copy: the operations below change it
+    rpath, (rb, rs), how = T.reader_binary(R, os.path.join(work, 'reader_binary'))
+    reader_bytes = open(rpath, 'rb').read()
+    if open(u.UWG.REFDOE_PATH, 'rb').read() != shipped_bytes:
+        # the reader found another way to its refdata directory and wrote over the file under test: put it back
+        with open(u.UWG.REFDOE_PATH, 'wb') as f:
+            f.write(shipped_bytes)
+        chk.notes.append('readDOE(serialize_output=True) wrote into the tree under test although DIR_CURR was '
+                         'redirected; uwg/refdata/readDOE.pkl restored from the bytes read before the call')
+    proto = [p for p in range(0, pickle.HIGHEST_PROTOCOL + 1)
+             if pickle.dumps(rb, p) + pickle.dumps(rs, p) == reader_bytes]
+    off = T.first_byte_difference(shipped_bytes, reader_bytes)
+    chk.measurements['reader_binary'] = {
+        'written_by': how, 'pickle_protocol(s) reproducing the file the reader writes': proto,
+        'bytes': len(reader_bytes), 'shipped_bytes': len(shipped_bytes),
+        'byte_identical_to_shipped': off is None, 'first_differing_offset': off,
+        're-serialising the unpickled shipped library (protocol 1, two dumps) gives the shipped file':
+            pickle.dumps(fb, 1) + pickle.dumps(fs, 1) == shipped_bytes}
+
+    # --- object graph, canonical numbering by first visit
+    diffs, gstats = T.graph_differences([fb, fs], [rb, rs], root='lib', limit=200)
+    by_kind = {}
+    for d in diffs:
+        by_kind[d['kind']] = by_kind.get(d['kind'], 0) + 1
+    for d in diffs[:2]:
+        chk.violation('impl-violation', 'object graph: pickle vs reader output',
+                      case={'position': _name(d['path']), 'difference': d['kind'],
+                            'reader binary vs shipped binary': 'byte identical' if off is None else
+                            'first differing byte at offset %d (sizes %d vs %d)' % (
+                                off, len(reader_bytes), len(shipped_bytes))},
+                      observed={'shipped library holds': _name(str(d['shipped'])),
+                                'reader output holds': _name(str(d['reader']))},
+                      expected='the same value, or - for a mutable object - the same first-visit name on both sides: '
+                               'an object of its own in both libraries, or in both the object already met at the '
+                               'same earlier position')
+    if off is not None and not diffs:
+        chk.notes.append('the file the reader writes differs from the shipped file at byte %d (sizes %d / %d) although '
+                         'the object graphs are equal: an encoding difference only (pickle protocol %s, string '
+                         'memoisation); recorded, not a verdict' % (off, len(reader_bytes), len(shipped_bytes), proto))
+    chk.direct('object-graph(pickle vs reader: values + sharing)', gstats['nodes'] + gstats['shared_positions'],
+               gstats['nodes'], 'side-by-side depth-first walk of [refBEM, Schedule] as unpickled from '
+               'uwg/refdata/readDOE.pkl and as returned by the reader (the call that also writes its own binary, output '
+               'redirected to a scratch directory; byte comparison with the shipped file recorded): every mutable '
+               'object (BEMDef, Building, Element, Material, SchDef, every list) is named by the position of its first '
+               'visit; at every position both sides must hold equal leaves (floats bit-exact, types equal) or objects '
+               'of the same class and shape with the SAME first-visit name - so the aliasing of Elements, Materials, '
+               'layer lists, schedule weeks and day rows between archetypes is compared, not only the values',
+               mismatches=len(diffs), branches=dict(gstats, **{'diff:' + k: v for k, v in by_kind.items()}))
+
+    # --- who shares what, by role
+    ga, gb = T.alias_partition(fb, fs), T.alias_partition(rb, rs)
+    pdiff = T.partition_difference(ga, gb)
+    sa, sr = T.partition_summary(ga), T.partition_summary(gb)
+    chk.measurements['aliasing_partition'] = {'shipped': sa, 'reader': sr}
+    for d in pdiff[:2]:
+        chk.violation('impl-violation', 'aliasing partition: who shares which sub-object',
+                      case={'group': d['group'], 'slot (cell, role, ...)': d['slot']},
+                      observed={'shipped library': d['shipped'], 'reader output': d['reader']},
+                      expected='the same set of slots holds one object in both libraries')
+    nslots = sum(v['slots'] for v in sa.values())
+    chk.direct('aliasing-partition(elements, materials, layer lists, weeks, day rows)', nslots,
+               sum(v['objects'] for v in sa.values()),
+               'for every slot of the 768 cells (building; wall / roof / mass Element; each entry of material_lst; the '
+               'five per-layer lists of each Element; the 7 weekly schedules; their 3 day rows) the set of slots that '
+               'hold the very same object, shipped vs reader: the partitions must be equal (distinct objects in the '
+               'shipped library: %s)' % ', '.join('%s %d' % (k, v['objects']) for k, v in sa.items()),
+               mismatches=len(pdiff), branches={k: v['held_by_several_slots'] for k, v in sa.items()})
+
+    # --- behaviour: an edit / a step through ONE archetype reaches the same archetypes in both libraries
+    ops, fam = T.reach_ops(rng, fb, fs, 1 if quick else 12, 3 if quick else 16)
+    res = T.reach_sets(ops, {'shipped': (fb, fs), 'reader': (rb, rs)})
+    rbad = 0
+    sizes = {}
+    for nop, (op, row) in enumerate(res):
+        key = '%s->%s' % (op[1].split(':')[0], len(row['shipped']) if isinstance(row['shipped'], list) else 'err')
+        sizes[key] = sizes.get(key, 0) + 1
+        if row['shipped'] != row['reader']:
+            rbad += 1
+            if rbad <= 2:
+                def show(v):
+                    return v if not isinstance(v, list) else {'cells changed': len(v), 'first': [list(c) for c in v[:5]]}
+                b = fb[op[0][0]][op[0][1]][op[0][2]]
+                chk.violation('impl-violation', 'reach set: an operation on one archetype changes the same archetypes',
+                              case={'archetype (type, era, zone index)': list(op[0]),
+                                    'labels': [b.bldtype, b.builtera, b.zonetype], 'operation': op[1],
+                                    'operations applied before (same sequence in both libraries)': nop},
+                              observed={'shipped library': show(row['shipped']), 'reader output': show(row['reader'])},
+                              expected='the same set of cells of the 16 x 3 x 16 matrix changes in both libraries')
+    chk.direct('reach-sets(edit / step one archetype, shipped vs reader)', len(res), len(res),
+               'the same sequence of operations applied to a freshly unpickled library and to the reader output; after '
+               'each operation the cells whose content changed (complete value digest per cell) must be the same set. '
+               'Archetypes: one of every construction family of the library (%s) + random ones; operations: real '
+               'Conduction step (the call urbflux makes), in-place edit and replacement of layerTemp, albedo / '
+               'vegcoverage / layer thickness / material conductivity for wall, roof and mass; the overrides '
+               '_compute_BEM writes into selected archetypes (glazing_ratio, shgc, floor_height, frac), cop; for each '
+               'of the 7 schedules: replacing a day row, editing one hour in place, replacing the week; q_elec'
+               % ', '.join('%s x%s' % kv for kv in fam.items()), mismatches=rbad, branches=sizes)
+
+    # --- behaviour: stocks simulated with the shipped binary and with the binary the reader writes
+    jobs, labels = [], []
+    pristine = u.UWG.load_refDOE()[0]
+    for kind, stock, k in T.twin_stocks(rng, pristine, 4 if quick else 25):
+        epw, month = HOT if rng.random() < 0.5 else COLD
+        labels.append({'kind': kind, 'bld': [list(s) for s in stock], 'zone': REF_ZONETYPE[k], 'epw': epw})
+        for lib in (None, rpath):
+            jobs.append((core.REPO, lib, stock, REF_ZONETYPE[k], epw, month, 2, []))
+    from uwg.utilities import REF_BLDTYPE, REF_BUILTERA
+    for n in range(3 if quick else 16):
+        # customise one archetype of the freshly loaded library, then simulate ANOTHER era / zone of the same type
+        i = rng.randrange(16)
+        x = (i, rng.randrange(3), rng.randrange(16))
+        y = (i, rng.randrange(3), rng.randrange(16))
+        if x == y:
+            y = (i, (x[1] + 1) % 3, x[2])
+        if n % 3 == 2:
+            edits = [(x, 'step:%s.Conduction' % r, r) for r in T.ROLES for _ in range(12)]
+            what = 'twelve Conduction steps of wall, roof and mass'
+        else:
+            edits = [(x, 'replace-row:%s[%d]' % (nm, d), nm) for nm in ('elec', 'light', 'occ') for d in range(3)]
+            what = 'the three day rows of elec, light and occ replaced'
+        epw, month = HOT if rng.random() < 0.5 else COLD
+        labels.append({'kind': 'customise %s (%s), simulate %s alone' % (list(x), what, list(y)),
+                       'bld': [[REF_BLDTYPE[y[0]], REF_BUILTERA[y[1]], 1.0]], 'zone': REF_ZONETYPE[y[2]], 'epw': epw})
+        for lib in (None, rpath):
+            jobs.append((core.REPO, lib, [(REF_BLDTYPE[y[0]], REF_BUILTERA[y[1]], 1.0)], REF_ZONETYPE[y[2]],
+                         epw, month, 2, edits))
+    with multiprocessing.Pool(min(16, len(jobs))) as pool:
+        out = pool.map(T.sim_with_library, jobs, chunksize=1)
+    sbad = 0
+    for n, lab in enumerate(labels):
+        a, b = out[2 * n], out[2 * n + 1]
+        if a != b:
+            sbad += 1
+            if sbad <= 2:
+                if a[0] == 'ok' and b[0] == 'ok':
+                    h = next(i for i, (p, q) in enumerate(zip(a[1], b[1])) if p != q)
+                    obs = {'first differing hour': h, 'canTemp with the shipped binary': a[1][h][0],
+                           'canTemp with the binary the reader writes': b[1][h][0],
+                           'max |d canTemp| K': max(abs(float(p[0]) - float(q[0])) for p, q in zip(a[1], b[1]))}
+                else:
+                    obs = {'shipped binary': a[0] if a[0] == 'ok' else a[1], 'reader binary': b[0] if b[0] == 'ok' else b[1]}
+                chk.violation('impl-violation', 'simulation with the shipped binary vs the binary the reader writes',
+                              case=lab, observed=obs, expected='bit-identical hourly records (1 day, dtsim 300)')
+    chk.direct('simulate(shipped binary vs binary written by the reader)', len(labels), len(labels),
+               'one-day simulations (Singapore July / Toronto January) with UWG.load_refDOE reading the shipped file and '
+               'reading the file the reader has just written: stocks of several archetypes that could share state '
+               '(eras of one type, types of one construction family, mixed) and single archetypes simulated after '
+               'another era / zone of the same type was customised in the loaded library (day rows replaced; elements '
+               'stepped): hourly records bit-identical', mismatches=sbad)
+
+
 def run(chk):
     # translator: regenerate the Lean table from the working tree, then re-check the theorems
     info, (sb, ss, rb, rs, srows, rrows) = reftables.generate()
@@ -235,6 +418,8 @@ def run(chk):
                 '; '.join('%s in BLD%s' % (k, v) for k, v in sorted(unknown.items())),
                 {k: sorted(v) for k, v in known.items()},
                 '; '.join('%s x%d from cell %s (%s)' % (r, n, c, '+'.join(t)) for r, n, c, t in sharing)))
+
+    object_graph_ties(chk, sb, ss)
 
     # asking by NAME hands out the archetype of that name: every (type, era) of the pickle's own labels in one
     # stock, generate() under every one of the 18 zone names
